@@ -28,10 +28,17 @@ CHECKS.update({
                 "must-reject (a query/evidence atom undefined in the well-founded model of every positive-weight world) "
                 "and either; the real system's accept/reject decision and, for must-answer programs, its numbers are "
                 "judged against that class.", "DESIGN.md §4 C02"),
-    "C03": _sem("Every batch of sibling 'e' messages pushed by the default engine is permuted (seeded) through the "
-                "documented init_message_stack extension point; each permuted run is judged by Semantics.tla and "
-                "compared with the unpermuted run (same answers, instances, error class).", "DESIGN.md §4 C03",
-                technique="schedule permutation of the real engine's message stack + TLA+ Semantics oracle (TLC)"),
+    "C03": _sem("Layer B: Engine.tla (stage 1) models the main loop of StackBasedEngine message by message on acyclic "
+                "propositional programs (eval_define / clause / fact / call / conj / neg, EvalDefine / EvalAnd / EvalNot, table, "
+                "pointer discipline, the builder of FormulaBuilderOps as target); TLC checks ResultCorrect and TableSound for "
+                "every program of the family, every query sequence and every order of every sibling batch. Every terminal "
+                "behaviour is replayed on the real engine with the same schedule and compared message by message. Beyond that "
+                "fragment: every batch of sibling 'e' messages pushed by the default engine is permuted (seeded) through the "
+                "documented init_message_stack extension point on generated programs (cycles, ADs, non-ground, evidence); each "
+                "permuted run is judged by Semantics.tla and compared with the unpermuted run.", "DESIGN.md §4 C03",
+                category="model_checking",
+                technique="TLC model checking of an implementation-shaped TLA+ model of the engine loop over all sibling schedules, "
+                          "spec->code replay of every explored behaviour, schedule permutation of the real engine + TLA+ Semantics oracle"),
     "C04": _sem("Unbuffered depth-first, rc_first and the documented random-order engine are run on every generated "
                 "program, judged by Semantics.tla and compared with the default engine.", "DESIGN.md §4 C04",
                 technique="engine-mode matrix on the real engine + TLA+ Semantics oracle (TLC)"),
